@@ -103,7 +103,7 @@ Fixpoint probes_oracle (sc : scen) (r : Z) (tps cnts : list Z) : bool :=
 Definition ctimes (sc : scen) : list Z :=
   map (fun k => match ctime sc k with Some t => t | None => -1 end) (seq 0 (nclk sc)).
 
-(* one admitted round: (agree, oracle) *)
+(* one round that was let in: (agree, oracle) *)
 Definition round_verdict (sc : scen) (r : Z) (ms' : list meas) (comps tps cnts : list Z) : bool * bool :=
   let agree :=
     (r =? expected_ret sc) && list_eqb Z.eqb comps (ctimes sc) &&
@@ -131,7 +131,8 @@ Fixpoint hobs_list (a o : list value) : option (list hobs) :=
   end.
 
 (* retire the calls whose (model) return time is before t; a call returning exactly at t
-   races with the call made at t: it is retired first unless that call was seen refused *)
+   races with the call made at t: the return is taken to come first exactly when the call
+   made at t was seen to be let in (a call refused for its lengths does not tell) *)
 Fixpoint retire (g : gst) (act : list (nat * Z)) (t : Z) (eq_too : bool) : gst * list (nat * Z) * bool :=
   match act with
   | [] => (g, [], true)
@@ -146,13 +147,13 @@ Fixpoint retire (g : gst) (act : list (nat * Z)) (t : Z) (eq_too : bool) : gst *
 Definition class_of (o : gout) : Z :=
   match o with GO_call Started => 0 | GO_call PanicLen => 1 | GO_call PanicBusy => 2 | _ => 4 end.
 
-(* walks the calls in start order; returns (agree, per-round oracle, admitted rounds with their schedules) *)
+(* walks the calls in start order; returns (agree, per-round oracle, the rounds let in with their schedules) *)
 Fixpoint hist_walk (id : nat) (g : gst) (act : list (nat * Z)) (hs : list hobs)
   : bool * bool * list (Z * scen * list nat) :=
   match hs with
   | [] => (true, true, [])
   | h :: rest =>
-      let '(g1, act1, ok1) := retire g act (ho_start h) (negb (ho_cls h =? 2)) in
+      let '(g1, act1, ok1) := retire g act (ho_start h) (ho_cls h =? 0) in
       let sc := ho_sc h in
       let '(g2, out) := gstep g1 (GCall id (List.length (s_ms0 sc)) (nclk sc)) in
       let cls := class_of out in
